@@ -11,11 +11,11 @@ from . import core
 WALKER = "pysmt.simplifier.Simplifier"
 
 # rules that go through the binary-string representation: proved per width (Pw)
-WIDTH_FAMILY_OPS = (S.BV_EXTRACT, S.BV_ROL, S.BV_ROR, S.BV_SEXT, S.BV_ZEXT)
+WIDTH_FAMILY_OPS = (S.BV_EXTRACT, S.BV_ROL, S.BV_ROR, S.BV_SEXT, S.BV_ZEXT, S.BV_ASHR)
 WIDTHS = {"quick": (1, 2, 3, 4), "thorough": (1, 2, 3, 4, 5, 6, 8)}
 
 ARITIES = {
-    S.AND: (2, 3), S.OR: (2, 3), S.PLUS: (2, 3), S.TIMES: (2, 3), S.STR_CONCAT: (2, 3),
+    S.AND: (2,), S.OR: (2,), S.PLUS: (2,), S.TIMES: (2,), S.STR_CONCAT: (2, 3),
     S.FUNCTION: (1, 2), S.ARRAY_VALUE: (1, 3, 5),
 }
 
@@ -36,10 +36,34 @@ def rule_goals(v, f, Kop, args):
         goals.append(("value-preserved", S.val(v) == S.val(f)))
         if args and Kop != S.FUNCTION:
             allc = [S.isconst(a) for a in args]
+            if Kop == S.POW:      # pySMT's own operator: folded for integer exponents only
+                e = S.val(args[1])
+                allc.append(z3.Or(S.Val.is_VInt(e), z3.And(S.Val.is_VReal(e), z3.IsInt(S.vr(e)))))
+                b = S.val(args[0])
+                allc.append(z3.Not(z3.And(z3.Or(b == S.VInt(0), b == S.VReal(0)),
+                                          z3.Or(z3.And(S.Val.is_VInt(e), S.vi(e) < 0),
+                                                z3.And(S.Val.is_VReal(e), S.vr(e) < 0)))))
             if Kop == S.DIV:      # C02 excludes evaluated divisions by zero
                 allc.append(z3.Not(z3.Or(S.val(args[1]) == S.VInt(0), S.val(args[1]) == S.VReal(0))))
             goals.append(("C02:ground-complete", z3.Implies(z3.And(allc), S.isconst(v))))
     return goals
+
+
+KNOWN_CLASSES = {
+    # both operands are array-valued constants
+    "both-array-values": lambda v: z3.And([S.op(a) == S.ARRAY_VALUE for a in v.args]),
+}
+
+
+def canonicity(ex):
+    """C04 lemma: two constants of the same non-array type with the same value
+    are the same node (value-keyed hash-consing).  Instantiated for the node
+    terms of the path; deliberately NOT stated for array-valued constants."""
+    ts = list(ex.ghost.get("touched", {}).values())[:14]
+    for i, a in enumerate(ts):
+        for b in ts[i + 1:]:
+            ex.assume(z3.Implies(z3.And(S.isconst(a), S.isconst(b), S.type_of(a) == S.type_of(b),
+                                        z3.Not(Ty.is_ArrT(S.type_of(a))), S.val(a) == S.val(b)), a == b))
 
 
 class WalkNotSummary(core.Contract):
@@ -120,6 +144,14 @@ class RuleVariant(Variant):
         self.formula, self.args = formula, args
         ex.assume(S.op(formula) == self.Kop)
         W.learn(ex, formula, op=self.Kop, k=self.k)
+        if self.Kop == S.DIV:
+            # C01's quantifier: interpretations that evaluate a division by zero are excluded
+            d = S.val(S.arg(formula, S.K(1)))
+            ex.assume(z3.And(d != S.VInt(0), d != S.VReal(0)))
+        if self.Kop == S.POW:
+            b, e = S.val(S.arg(formula, S.K(0))), S.val(S.arg(formula, S.K(1)))
+            ex.assume(z3.Not(z3.And(z3.Or(b == S.VInt(0), b == S.VReal(0)),
+                                    z3.Or(z3.And(S.Val.is_VInt(e), S.vi(e) < 0), z3.And(S.Val.is_VReal(e), S.vr(e) < 0)))))
         if self.Kop in WIDTH_FAMILY_OPS:
             ex.ghost["width_family"] = WIDTHS[self.tier]
         if "walk_not" not in self.qualname:
@@ -152,7 +184,15 @@ class RuleVariant(Variant):
         if not is_node(v):
             return [("returns-node", z3.BoolVal(False))]
         self.world.touch(ex, v)
+        if self.Kop in (S.ARRAY_SELECT, S.ARRAY_STORE, S.ARRAY_VALUE, S.EQUALS, S.BV_COMP):
+            canonicity(ex)
         return rule_goals(v, self.formula, self.Kop, self.args)
+
+    def known_class(self, clause):
+        for k in core.known_entries():
+            if k.get("function") == self.qualname and k.get("clause") == clause and k.get("class") in KNOWN_CLASSES:
+                return k["id"], KNOWN_CLASSES[k["class"]](self)
+        return None
 
     def witness(self, model, ex):
         from pyvc.concretize import node_to_json
@@ -177,11 +217,16 @@ def variants(world, tier="quick", only=None):
         if target.endswith("walk_error"):
             continue
         ks = ARITIES.get(Kop, (S.FIXED_ARITY.get(Kop),))
+        if tier == "thorough" and Kop in (S.AND, S.OR, S.PLUS, S.TIMES):
+            ks = (2, 3)
         for k in ks:
             v = RuleVariant(world, Kop, k, target, tier=tier)
             if Kop in WIDTH_FAMILY_OPS:
                 v.bounded = "width"
             if tier == "quick" and Kop in (S.AND, S.OR):
+                v.max_arity = 2
+            if Kop in (S.PLUS, S.TIMES):
+                v.loop_bound = 3 if tier == "quick" else 5
                 v.max_arity = 2
             out.append(v)
     if not only or "walk_not" in only:
